@@ -885,7 +885,17 @@ class Messenger(Connection):
         else:
             peer_dnsid = self._peer_name
         peer_ipaddrid = ipaddress.ip_address(peer_addr_str)
-        peer_nodeid = str(self._sessinit_peer.nodeid_data)
+        try:
+            peer_nodeid = str(self._sessinit_peer.nodeid_data)
+        except UnicodeDecodeError as err:
+            # octets which are no text are no node ID that anything
+            # could be matched against or reported as
+            self._logger.error('Peer node ID is not UTF-8 text: %s', err)
+            raise TerminateError(messages.SessionTerm.Reason.CONTACT_FAILURE)
+        if '\x00' in peer_nodeid:
+            # no URI, and no text which could be reported over D-Bus
+            self._logger.error('Peer node ID contains a NUL character')
+            raise TerminateError(messages.SessionTerm.Reason.CONTACT_FAILURE)
 
         # These are set to None if absent, False if invalid, or the valid value
         authn_nodeid = None
